@@ -48,7 +48,7 @@ def plan(tier):
                 "programs run twice). Non-trivial = a request was seen waiting at a quiescent point; distinct = distinct "
                 "(configuration, jobs, history, pace, drain).",
         "exhaustive": True,
-        "assumptions": ["retry_delay=0", "a deployment's locations share one mount table",
+        "assumptions": ["repeated notifications are issued sequentially (any status, FIREABLE included) and concurrently (two in-flight COMPLETED/FAILED calls)", "retry_delay=0", "a deployment's locations share one mount table",
                         "out-of-lifecycle histories are recorded, not judged"],
     }
 
